@@ -592,3 +592,67 @@ func blockAlwaysReturns(b *ssa.BasicBlock) bool {
 var fieldNilBeliefExceptions = map[string]string{
 	"(*ast.Var).String|value": "the walrus form `x := e` cannot be parsed without a value (parseDeclaration reports an error and returns no node), so only the `var x` form can have a nil value and only that branch tests it",
 }
+
+// localsWrittenOnlyByOwners (C02-R10): the slots of a frame's locals are written
+// by the frame's own methods (activation) and by the dispatch function's store
+// instruction — nobody else.  Once a closure exists the locals slice is the very
+// storage its cells point into, so any "clean-up" that clears the locals of
+// frames being unwound wipes the variables of closures that outlive the call.
+func localsWrittenOnlyByOwners(c *core.Ctx) {
+	p := c.P
+	vmp := p.Pkg("vm")
+	frameT := core.MustType(vmp, "frame")
+	dispatch := p.SSAFunc(dispatchFunc(p))
+	isLocalsSource := func(v ssa.Value) bool {
+		for _, o := range core.Origins(v) {
+			switch x := o.(type) {
+			case *ssa.Call:
+				if cal := x.Call.StaticCallee(); cal != nil && cal.Signature.Recv() != nil && core.NamedOf(cal.Signature.Recv().Type()) == frameT {
+					if sl, ok := cal.Signature.Results().At(0).Type().Underlying().(*types.Slice); ok && core.IsNamed(sl.Elem(), pkgPath("object"), "Object") {
+						return true
+					}
+				}
+			case *ssa.UnOp:
+				if fa, ok := x.X.(*ssa.FieldAddr); ok && core.NamedOf(fa.X.Type()) == frameT {
+					if f := fieldVar(fa); f != nil {
+						if sl, ok := f.Type().Underlying().(*types.Slice); ok && core.IsNamed(sl.Elem(), pkgPath("object"), "Object") {
+							return true
+						}
+					}
+				}
+			}
+		}
+		return false
+	}
+	n := 0
+	for _, fn := range repoFns(p, "vm") {
+		owner := fn == dispatch || (fn.Signature.Recv() != nil && core.NamedOf(fn.Signature.Recv().Type()) == frameT)
+		bad := ""
+		k := 0
+		for _, b := range fn.Blocks {
+			for _, in := range b.Instrs {
+				st, ok := in.(*ssa.Store)
+				if !ok {
+					continue
+				}
+				ia, ok := st.Addr.(*ssa.IndexAddr)
+				if !ok || !isLocalsSource(ia.X) {
+					continue
+				}
+				k++
+				if !owner {
+					bad = p.Pos(st.Pos())
+				}
+			}
+		}
+		if k == 0 {
+			continue
+		}
+		n++
+		c.Check(bad == "", core.SSAName(fn)+"|locals-written-by-owner", p.Pos(fn.Pos()),
+			fn.Name()+" writes frame locals as the frame's own method or as the dispatch function"+ifs(bad != "", "; it is neither, and writes a local slot at "+bad+" (cells of live closures point into that storage)"))
+	}
+	if n == 0 {
+		core.Undecidedf("no function writes frame locals")
+	}
+}
